@@ -47,11 +47,16 @@ def judge(cid, payload, mode, pbf):
     except Exception as e:  # noqa: BLE001
         out.append((f"accessor_raises|{site}|{type(e).__name__}", str(e)))
     try:
-        m2 = eval(repr(msg), EVAL_NS)  # pylint: disable=eval-used
-        if m2.serialize() != frame:
-            out.append((f"eval_repr_differs|{site}", f"repr={repr(msg)[:100]}"))
+        rp = repr(msg)
     except Exception as e:  # noqa: BLE001
-        out.append((f"eval_repr_raises|{site}|{type(e).__name__}", f"{e} repr={repr(msg)[:100]}"))
+        out.append((f"repr_raises|{site}|{type(e).__name__}", str(e)))
+        return "accepted", out
+    try:
+        m2 = eval(rp, EVAL_NS)  # pylint: disable=eval-used
+        if m2.serialize() != frame:
+            out.append((f"eval_repr_differs|{site}", f"repr={rp[:100]}"))
+    except Exception as e:  # noqa: BLE001
+        out.append((f"eval_repr_raises|{site}|{type(e).__name__}", f"{e} repr={rp[:100]}"))
     return "accepted", out
 
 
